@@ -2,6 +2,8 @@ package props
 
 import (
 	"fmt"
+	"github.com/robfig/soy"
+	"github.com/robfig/soy/template"
 	"os"
 	"os/exec"
 	"strconv"
@@ -482,6 +484,46 @@ func init() {
 				if two[0].id == same[0].id || two[0].phstr == same[0].phstr {
 					return fw.Result{Verdict: fw.Violated, Key: "regrouped-expressions-taken-for-one-placeholder", Case: c10File([]*ref.Msg{mk(pq[0], pq[1])}, 0),
 						Msg: fmt.Sprintf("a message printing %s and %s got placeholders %q and id %d, the same as the message printing the first expression twice", ref.Src(pq[0], ref.PrintStyle{}), ref.Src(pq[1], ref.PrintStyle{}), two[0].phstr, two[0].id)}
+				}
+			}
+			// (h) a user parse pass (Bundle.AddParsePass) that edits the text of a message: the id is that of the message as it
+			// stands when compilation ends, i.e. the id the edited text gets when it is written in the source
+			if i%10 == 4 {
+				edited := c10Msg(fw.NewRand(seed))
+				if last, ok := edited.Body[len(edited.Body)-1].(*ref.Raw); ok && len(edited.Body) > 0 {
+					last.Text += " (edited)"
+					want, werr := c10Compile(c10File([]*ref.Msg{edited}, 0))
+					passEdited := false // (text that ends in an HTML tag ends in a tag node, which the pass leaves alone)
+					bnd := soy.NewBundle().AddTemplateString("m.soy", src).AddParsePass(func(reg template.Registry) error {
+						for _, t := range reg.Templates {
+							walkAst(t.Node, func(n ast.Node) {
+								if m, ok := n.(*ast.MsgNode); ok {
+									ch := m.Body.Children()
+									if rt, ok := ch[len(ch)-1].(*ast.RawTextNode); ok {
+										rt.Text = append(append([]byte{}, rt.Text...), " (edited)"...)
+										passEdited = true
+									}
+								}
+							})
+						}
+						return nil
+					})
+					reg, gerr := bnd.Compile()
+					if werr == nil && gerr == nil && len(want) == 1 && passEdited {
+						var got []c10Obs
+						for _, t := range reg.Templates {
+							walkAst(t.Node, func(n ast.Node) {
+								if m, ok := n.(*ast.MsgNode); ok {
+									got = append(got, c10Obs{m.ID, soymsg.PlaceholderString(m)})
+								}
+							})
+						}
+						ctx.Obs("parse_pass_edits", 1)
+						if len(got) != 1 || got[0] != want[0] {
+							return fw.Result{Verdict: fw.Violated, Key: "id-ignores-parse-pass-edit", Case: src,
+								Msg: fmt.Sprintf("a parse pass appended \" (edited)\" to the message text: compiled id / placeholders %v, the edited text written in the source gets %v", got, want)}
+						}
+					}
 				}
 			}
 			// (d) the official algorithm
